@@ -57,3 +57,63 @@ def run_all(mir, syn, repo, tier, props):
             for p in serves:
                 ctx.ob(p, 'R-INTERNAL', name, False, 'rule module %s crashed (fail closed): %s' % (name, e), '', tb[-800:])
     return ctx
+
+
+_m('C01', 'Static: the struct-layout code is reduced to structural facts that hold for all inputs and both pointer widths: Regions::push pairs every pushed region with an '
+   'advance of the running end by that region\'s size (R-PAIR); padding before an addressed field is exactly address − end and precedes the field (R-EXPR/R-DOM); overlap is '
+   'rejected; the vftable pointer is the first push; no order-changing operation touches a region/statement sequence (R-SEQ); the per-field alignment test runs for every region '
+   'on every non-packed path to success (R-GUARD/R-ITER); the extracted struct template is #[repr(C,..)] with one field per region in order, name and type of the same region (R-TMPL); '
+   'the built-in size table equals rustc\'s data layout for both Windows targets (R-TABLE).',
+   ['rustc implementing repr(C) as the reference says (trusted)', 'numeric behaviour at usize overflow (C12)', 'truth of extern types\' declared size'])
+_m('C02', 'Static: built-in (size, align) table vs rustc target data layouts (x86_64/i686-pc-windows-msvc); Type::size/alignment per variant; provenance chain from the checked '
+   'alignment / summed size into ItemStateResolved and from there into align(N) and the size-check transmute of the template; enum takes size/alignment of the type it prints in repr(); '
+   'vftable struct size = sum of slot regions, alignment = pointer size; declared #[size] guard and trailing padding.',
+   ['that #[repr(C, align(N))] with N ≥ natural alignment and size % N == 0 yields align_of == N (Rust reference)', 'non-power-of-two N (finding F7)', 'extern types'])
+_m('C03', 'Static: presence, operator strictness, operand identity, coverage (CFG cut on the non-packed / declared-size paths) of every rejection condition the statement lists, '
+   'plus a census: every Err-producing branch of the type builder must implement one of those clauses (an extra one is a possible spurious rejection). NOT decided: the iff over all numeric inputs.',
+   ['accept ⇔ realisable as an arithmetic equivalence for all values (needs a solver / execution: different technique family)'])
+_m('C04', 'Static: slot builder (padding to #[index] before each function, to #[size] after, half-open placeholder range, one push per declared function in order), vftable struct '
+   '(one Function-typed region per slot from the function\'s own name/convention/arguments), wrapper template Vftable arm (one addr_of!((*self.vftable()).<name>).read(), one tail call, '
+   'receiver then arguments in order), name agreement between slot and wrapper.', ['run-time behaviour for arbitrary table contents (follows from Rust semantics of the decided template)'])
+_m('C05', 'Static: missing address / address on virtual / unresolvable parameter ⇒ Err guards; checked address conversion; wrapper template Address arm (extern "<cc>" fn pointer type with '
+   'this-pointer and arguments in order, transmute(<address literal> as usize), single tail call); hex literal prefix/radix agreement; duplicate method guard.',
+   ['register contents at run time', 'F15 (second impl block dropped) is reported under C14-D3'])
+_m('C06', 'Static: prefix comparison (length test strict, zip of both lists unadapted, inequality = derived PartialEq over all fields of Function), the four outcomes of vftable::build '
+   '(own+base: no pointer field, base field recorded; own+no base: private `vftable` field of the accessor type; inherited; none), first base = first is_base region, pointer region pushed first, accessor template.',
+   ['that the first base sits at offset 0 (the quantifier\'s assumption)'])
+_m('C07', 'Static: injection loop over all is_base regions (enumerate after filter), associated functions always, virtual functions only for index > 0, public only, clash rename format, '
+   'Field body provenance; wrapper template Field arm (self.<field>.<name>(args without receiver)); AsRef/AsMut template (type and path from the same dfs_hierarchy entry, dedup alternative, reflexive impls).',
+   ['run-time receiver address (follows from field projection)', 'F17: a renamed <field>_<name> can itself collide (noted)'])
+_m('C08', 'Static: discriminant counter shape (0, literal or counter, counter := value + 1), default bookkeeping guards, enum template (#[repr(resolved base type)], one variant per pair in order, '
+   '#[default] on enumerate index == default_index, derives), lossy-cast rule on the interpolated discriminant (finding F13), range guard obligation (absent: F13).', [])
+_m('C09', 'Static: every hash-iteration source is enumerated by receiver type and must be discharged (SORTED / INDEPENDENT / ERROR-TEXT-ONLY / SCHEDULE / escapes-to-callers, followed interprocedurally); '
+   'registry-frozen reachability (no call path from the per-item builders to a registry insertion — violated: F1); no statics, thread-locals, interior-mutable consts, ambient inputs on the build path; '
+   'order-changing calls on order-bearing sequences are the reviewed ones.', ['confluence of the fix-point is argued, not proved', 'file-system enumeration order (glob)'])
+_m('C10', 'Static: Ok(ResolvedSemanticState) is cut off when the true edge of unresolved().is_empty() is removed; every other loop exit is Err; no-progress test on every trip; results of the resolver '
+   'and of Regions::push are deferred/propagated, never absorbed (F2) or discarded; pointer/function arms of Type::size/alignment never touch the pointee; all definitions/extern types/extern values are registered/resolved.',
+   ['"every acyclic graph resolves however long the chains" and "every by-value cycle errors" as behaviours of the fix-point on run-time graphs'])
+_m('C11', 'Static: single resolver (Type::Raw constructed from a name only in resolve_string; callers; scope argument = owning module\'s scope()), backend never re-resolves, candidate order read off the '
+   'combinator expression (imported types reversed, then root, then scope modules in order; scope = own path ++ uses), type printer prints the stored path (crate:: prefix rule, void).', [])
+_m('C12', 'Static: census of every panic-capable site reachable from the public API (MIR asserts, unwrap/expect, panics, indexing, integer operator traits, identifier constructors) each discharged '
+   'automatically (dominating guard, bool::then receiver, just-pushed, full range, constant) or by a reviewed table entry with a machine-checked supporting fact, else a finding; lossy `as` casts of run-time integers; '
+   'every loop classified (finite std iterator / token-consuming parser loop / reviewed) and every recursive function reviewed; parse errors carry path:line:col.',
+   ['panics inside external crates other than the tabled callees', 'memory proportionality as a quantity', 'stack depth on deeply nested input types'])
+_m('C13', 'Static, partial: (1) write_module returns Ok only if syn::parse_file accepted the complete buffer (parse gate, constant FORMAT_OUTPUT folded); (2) every concretised alternative of the extracted '
+   'item/wrapper/accessor templates parses with syn; (3) type printer arms; Predefined/Extern emit nothing; copyable ⇒ cloneable; defaultable field guard. NOT decided: name resolution, trait satisfaction, privacy in rustc.',
+   ['rustc name resolution / traits / privacy on the unbounded family of outputs (bulk of the property)', 'F16: Copy/Clone satisfiability of field types'])
+_m('C14', 'Static: files are created only by write_module, one per call, path = out_dir/segments.rs, root skipped; build() calls it for every module; add_module/add_item registration pairing and coverage; '
+   'generated vftable item registered on both own-block outcomes; keyed insertions must consult prior presence (F14, F15); buffer order header/doc/prologues/items/externs/epilogues, rust backend only, complete and in order.',
+   ['byte-level "unchanged up to formatting" (prettyplease)'])
+_m('C15', 'Static: struct singleton template (one dereference of `A as *mut *mut Self`, as_mut), enum singleton (one dereference of `A as *const Self`), extern accessor (&mut *(A as *mut T), both T from ev.type_, '
+   'A = ev.address), missing address ⇒ Err, every extern value resolved, address conversions (lossy casts: F4).', ['memory contents at run time'])
+_m('C16', 'Static: as_str/from_str inverse tables over all variants, every string accepted by rustc (--print=calling-conventions), default closure (thiscall iff a receiver), unknown ⇒ Err, placeholders thiscall, '
+   'slot region and wrapper both print function.calling_convention via as_str, prefix comparison covers the convention (derived PartialEq).', ['rustc\'s ABI semantics'])
+_m('C17', 'Static: provenance of every visibility alternative and doc repetition in the templates (item/field/method/accessor), Private for padding/vftable pointer/placeholders/renamed fields, derive list '
+   'alternatives keyed on copyable/cloneable/defaultable, packed ⇒ `, packed` and no align, doc_to_tokens one attribute per line, visibility tables.', ['rendering of doc text by prettyplease'])
+_m('C19', 'Static, confinement only: no global mutable state; the resolver accesses the registry by key only with keys built from the referring module\'s scope, the root and the name; add_item registers under '
+   'path.parent() only; write_module never enumerates other modules; hash-order discharges of C09. NOT decided: byte-identity between two runs.', ['byte-identity as a relation between two runs'])
+_m('C20', 'Static, convergence of code paths only: zero-sized array regions are not pushed (explicit address equal to the current end and unknown<0> add nothing); unnamed regions are normalised at one place from '
+   'the running offset; trailing padding guard; index-driven and sequential slot assignment share the padding helper; numbers are isize/usize from the parser on; definitions sorted before printing. '
+   'NOT decided: byte-identity between two inputs.', ['byte-identity of outputs as such'])
+_m('C18', 'Static: the grammar extracted from the recursive-descent parser (token sequences, constructors, provenance of constructor arguments) equals the reviewed reference grammar; constructor coverage; '
+   'peek/parse agreement. NOT decided: round-trip equality of values.', ['equality of values for all modules', 'lexer behaviour (proc-macro2)'])
